@@ -177,6 +177,17 @@ class Mon:
                 if not good:
                     ctx.violation(f"sedol2isin/wrong/{_cls(base)}", f"sedol2isin({base + want!r}, {nation!r}) -> {isin!r}",
                                   {"kind": "sedol", "base": base})
+            # a country code no numbering agency has: whatever comes back must not be handed out as an ISIN (it could never validate)
+            for fn, ident in ((u.sedol2isin, base + want),):
+                for nation in ("ZZ", "XQ", "gb", "G", "GBR"):
+                    ctx.ev()
+                    ctx.count("conversions_with_unknown_country")
+                    try:
+                        r = fn(ident, nation)
+                    except Exception:
+                        continue
+                    ctx.violation("sedol2isin/unknown-country-converted", f"sedol2isin({ident!r}, {nation!r}) -> {r!r}: no ISIN begins with {nation!r}", {"kind": "sedol", "base": base})
+                    break
             for c in CHECKCHARS + lookalikes(want):
                 if c == want:
                     continue
